@@ -685,7 +685,7 @@ func (s *enchState) emitRecord(ei, slot, rid, salt, depth int) (ents, dets []map
 	args := make([]any, 0, 2*len(attrs))
 	pairs := salt%3 == 2
 	for i, a := range attrs {
-		if pairs && argNodes[i].Kind != "group" && a.Key() != "" {
+		if pairs && argNodes[i].Kind != "group" {
 			args = append(args, a.Key(), argNodes[i].conc)
 		} else {
 			args = append(args, a)
